@@ -949,6 +949,31 @@ macro_rules! std_glue {
             p3_recursion::FriVerifierParams::with_mmcs(s.log_blowup, s.log_final_poly_len, s.commit_pow_bits, s.query_pow_bits, P2)
         }
     };
+    // the same with a Merkle cap of height `$cap` (2^cap roots per commitment) in the MMCS of the proof being verified
+    ($p2air:ident, $p2c:ident, $permfn:ident, cap = $cap:expr) => {
+        const P2: p3_recursion::Poseidon2Config = p3_recursion::Poseidon2Config::$p2c;
+        fn enable(b: &mut p3_circuit::CircuitBuilder<Challenge>) {
+            b.enable_poseidon2_perm::<p3_poseidon2_circuit_air::$p2air, _>(
+                p3_circuit::ops::generate_poseidon2_trace::<Challenge, p3_poseidon2_circuit_air::$p2air>,
+                $permfn(),
+            );
+            b.enable_recompose::<F>(p3_circuit::ops::generate_recompose_trace::<F, Challenge>);
+        }
+        fn make_config() -> MyConfig {
+            let perm = $permfn();
+            let hash = MyHash::new(perm.clone());
+            let compress = MyCompress::new(perm.clone());
+            let val_mmcs = MyMmcs::new(hash, compress, $cap);
+            let challenge_mmcs = ChallengeMmcs::new(val_mmcs.clone());
+            let fri_params = p3_fri::FriParameters::new_testing(challenge_mmcs, 0);
+            let pcs = MyPcs::new(Dft::default(), val_mmcs, fri_params);
+            MyConfig::new(pcs, Challenger::new(perm))
+        }
+        fn fri_params() -> p3_recursion::FriVerifierParams {
+            let s = test_fri_scalars();
+            p3_recursion::FriVerifierParams::with_mmcs(s.log_blowup, s.log_final_poly_len, s.commit_pow_bits, s.query_pow_bits, P2)
+        }
+    };
 }
 
 fn fib_trace<F: p3_field::PrimeField64>(n: usize) -> (p3_matrix::dense::RowMajorMatrix<F>, Vec<F>) {
@@ -963,6 +988,19 @@ pub mod uni_fib_bb {
     std_glue!(BabyBearD4Width16, BABY_BEAR_D4_W16, default_babybear_poseidon2_16);
     fn make_air_trace() -> (AirT, p3_matrix::dense::RowMajorMatrix<F>, Vec<F>) {
         let (t, p) = super::fib_trace::<F>(16);
+        (p3_circuit::test_utils::FibonacciAir {}, t, p)
+    }
+    uni_body!();
+}
+
+/// Fibonacci uni-STARK whose commitments are Merkle caps of height 1 (two roots each): every commitment contributes
+/// 2 * DIGEST_ELEMS public inputs and the opening selects a cap entry with the top index bit.
+pub mod uni_fib_bb_cap1 {
+    use p3_test_utils::baby_bear_params::*;
+    type AirT = p3_circuit::test_utils::FibonacciAir;
+    std_glue!(BabyBearD4Width16, BABY_BEAR_D4_W16, default_babybear_poseidon2_16, cap = 1);
+    fn make_air_trace() -> (AirT, p3_matrix::dense::RowMajorMatrix<F>, Vec<F>) {
+        let (t, p) = super::fib_trace::<F>(32);
         (p3_circuit::test_utils::FibonacciAir {}, t, p)
     }
     uni_body!();
@@ -1366,6 +1404,22 @@ pub mod batch_two_airs_rev_bb {
     batch_body!(proof);
 }
 
+/// The two-AIR batch with Merkle caps of height 2 (four roots per commitment, including the common preprocessed one).
+pub mod batch_two_airs_bb_cap2 {
+    use p3_test_utils::baby_bear_params::*;
+    type AirT = super::TwoAir;
+    std_glue!(BabyBearD4Width16, BABY_BEAR_D4_W16, default_babybear_poseidon2_16, cap = 2);
+    plain_fri_glue!();
+    fn make_instances() -> (Vec<AirT>, Vec<p3_matrix::dense::RowMajorMatrix<F>>, Vec<Vec<F>>) {
+        let mul = super::common::MulAir { degree: 2, rows: 16 };
+        let (mt, _) = mul.random_valid_trace::<F>(true);
+        let (ft, fp) = super::fib_trace::<F>(32);
+        (vec![super::TwoAir::Mul(mul), super::TwoAir::Fib(p3_circuit::test_utils::FibonacciAir {})], vec![mt, ft], vec![vec![], fp])
+    }
+    plain_batch_glue!();
+    batch_body!(proof);
+}
+
 /// Glue of a circuit-prover configuration (`BatchStarkProof` of the Const / Public / Alu tables of a small base-field circuit).
 /// The module provides `fn make_circuit() -> (CircuitBuilder<F>, Vec<F> /*public inputs*/, TablePacking)`.
 macro_rules! tables_glue {
@@ -1663,11 +1717,13 @@ pub mod batch_fib_kb_zk_pow {
 // Commands
 // ---------------------------------------------------------------------------------------------------------------
 
-pub const CONFIGS: &[&str] = &["uni_fib_bb", "uni_mul_kb_prep", "uni_gl_d2", "batch_two_airs_bb", "batch_lookups_bb", "batch_circuit_tables_kb", "batch_fib_kb_zk", "batch_fib_kb_zk_pow", "batch_two_airs_rev_bb"];
+pub const CONFIGS: &[&str] = &["uni_fib_bb", "uni_mul_kb_prep", "uni_gl_d2", "batch_two_airs_bb", "batch_lookups_bb", "batch_circuit_tables_kb", "batch_fib_kb_zk", "batch_fib_kb_zk_pow", "batch_two_airs_rev_bb", "uni_fib_bb_cap1", "batch_two_airs_bb_cap2"];
 
 fn make_driver(config: &str) -> Option<Box<dyn Driver>> {
     Some(match config {
         "uni_fib_bb" => uni_fib_bb::new(),
+        "uni_fib_bb_cap1" => uni_fib_bb_cap1::new(),
+        "batch_two_airs_bb_cap2" => batch_two_airs_bb_cap2::new(),
         "uni_mul_kb_prep" => uni_mul_kb_prep::new(),
         "uni_gl_d2" => uni_gl_d2::new(),
         "batch_two_airs_bb" => batch_two_airs_bb::new(),
